@@ -275,13 +275,15 @@ CLAIMED = {
         "chord of any size - the pitches, the base value and the dots, for the whole vocabulary); readBody_lyEntries / "
         "lyBar_reads (C19Bar.lean: a bar of ANY number of such entries in any order - so any pattern of tuplet blocks opening, "
         "continuing and closing - reads back as exactly the list of (pitches, base value, dots, tuplet ratio in force); the "
-        "tokenizer keeps <...> together; kernel example). Whole tables in "
+        "tokenizer keeps <...> together; kernel example); lyBar_reads_full and lyTrack_reads (C19Track.lean: a bar written with "
+        "ANY of the four key/time flag combinations, in any of the 30 keys with any non-negative meter numbers, reads back as "
+        "(time iff shown, tonic and mode iff shown, the entries); a track of ANY number of such bars reads back bar by bar - a "
+        "bar ends at its MATCHING brace, tuplet blocks nest (takeGroup_close, body_shape) - with key and time read exactly "
+        "where they change, C major and 4/4 before the first bar; kernel example on a two-bar track). Whole tables in "
         "the kernel: duration_table (10 base values longa..128th x 0-2 dots as the doubles dots() yields, and 8 x 3 tuplets: "
         "suffix text and ratio), key_table / key_mode_table (30 keys). Tie A: every statement of lilypond.py and musicxml.py, "
         "type names, longa/breve, clef text.",
-   note=TRUST + "Partial: the Lean bar reader covers bars written without the \\key / \\time prefix (those prefixes are covered "
-        "separately by key_table and track_shows_changes); track/composition nesting and the header are not parsed by a Lean "
-        "reader; they are tied by the character-exact correspondence and decoded per generated program by the "
+   note=TRUST + "Partial: the composition level (header block, tracks joined) is not parsed by a Lean reader; it is tied by the character-exact correspondence and decoded per generated program by the "
         "independent Python reader. XML text-level well-formedness and escaping are minidom's, validated per document by expat "
         "(not provable here). Titles containing a double quote are outside the LilyPond domain (the header is not escaped). "
         "Two defects repaired by fix: commits (14be814, deaaf2d).",
@@ -297,7 +299,8 @@ CLAIMED = {
         "findFingering_sorted (ordered by total fret number); getTuning_sound / getTunings_sound / countOk_spec (only "
         "tunings satisfying every constraint, for ANY registry); fromNote_equal_lengths (equal string lines for any fitting "
         "single-string tuning, note, width) with beginTrack_lengths and centred_length; registered_labels_fit (whole registry, "
-        "kernel); fromBar_equal_lengths (equal string lines for ANY bar and width); chord_sound + chord_span (C20Chord.lean: "
+        "kernel); fromBar_equal_lengths (equal string lines for ANY bar and width); fromNC_decode (from_NoteContainer: one cell per "
+        "string, read back exactly as the first fingering find_fingering returns); chord_sound + chord_span (C20Chord.lean: "
         "every fingering find_chord_fingering returns has one entry per string, every fretted entry lies within 0..maxfret and "
         "sounds a pitch class of the chord, every chord name is covered, at most max_fingers fingers, non-open frets less than "
         "max_distance apart - via follow_spec, makeTable_good, findNoteNames_spec); fromBar_decode + decodes_spec "
@@ -306,7 +309,7 @@ CLAIMED = {
         "fingering has one distinct string per note in order, each sounding its note; a rest reads as nothing; kernel "
         "examples). Tie A: the add_tuning calls = the model's table, every statement of tunings.py and tablature.py, the "
         "default tuning.",
-   note=TRUST + "Partial: decodability is proved for from_Bar (cells per entry); for from_NoteContainer, from_Track's gluing of "
+   note=TRUST + "Partial: decodability is proved for from_Bar (cells per entry) and from_NoteContainer; for from_Track's gluing of "
         "bars into lines and from_Composition's headers it is decided by the correspondence and the independent ASCII decoder, "
         "not proved; chord fingerings and tablature are only "
         "exercised on tunings without courses (find_note_names and begin_track cannot handle a course). Two defects repaired by "
